@@ -179,6 +179,10 @@ def main():
         return 0 if ok else 1
     finally:
         shutil.rmtree(scratch, ignore_errors=True)
+        # the Kani build directory of this scratch copy (one per repository path, see vx/kx.py)
+        import hashlib
+        shutil.rmtree(os.path.join(VERIF, "build", "kani_" + hashlib.sha1(os.path.realpath(scratch).encode()).hexdigest()[:10]),
+                      ignore_errors=True)
 
 if __name__ == "__main__":
     sys.exit(main())
